@@ -100,7 +100,7 @@ def parse_config(stderr, names):
     return mp, unf
 
 
-def cli_history(dfs, paths, toks, scratch):
+def cli_history(dfs, paths, toks, scratch, hook_runs=None):
     """Run the history's prefixes through dfs --show-config; returns events incl. read observations."""
     ev = []
     argv = []
@@ -128,8 +128,15 @@ def cli_history(dfs, paths, toks, scratch):
             unf = unf + [d_ for d_, i_, s_ in mp if i_ == nimg and s_ == 1]      # nothing can be read through a side without a file system
         ev.append(dict(e="attach", k=(511 if k == 3 else k), ok=ok, map=mp, unf=unf, cli=True))
         nimg += 1
-    # reads: address every drive 0..max+1 in three ways; the title / ID file tells which surface was read
+    # the same history as the storage layer itself recorded it (hook events at connect_drives / connect_internal / select_drive and
+    # the cache): collected here, judged by TraceStorageHook.tla
     final = ev[-1]["map"] if ev and ev[-1]["e"] == "attach" else []
+    if hook_runs is not None and final:
+        import readtrace
+        for d_ in sorted({x[0] for x in final})[:4]:
+            o, tev = readtrace.record([dfs] + argv + ["cat", str(d_)], scratch, "sh%d" % d_, kinds=readtrace.STORAGE_KINDS)
+            hook_runs.append(("dfs %s cat %d (rc=%s)" % (" ".join(a if not a.startswith("/") else os.path.basename(a) for a in argv), d_, o.rc), tev))
+    # reads: address every drive 0..max+1 in three ways; the title / ID file tells which surface was read
     occupied = {d: (i, s) for d, i, s in final}
     maxd = max(occupied) if occupied else 0
     targets = sorted(set(list(range(0, min(maxd, 12) + 2)) + [d for d in occupied if occupied[d][1] in (0, 1, 2, 5, 510) and kinds[occupied[d][0]] == 3][:8]))
@@ -233,8 +240,13 @@ def run(chk, tier, seed):
 
         def do(i_k):
             i, k = i_k
-            return cli_history(dfs, paths, k.split(), scratch)
-        cli_ev = common.pmap(do, list(enumerate(chosen)))
+            hr = []
+            sub = os.path.join(scratch, "cli%d" % i)
+            os.makedirs(sub, exist_ok=True)
+            return cli_history(dfs, paths, k.split(), sub, hook_runs=hr), hr
+        both = common.pmap(do, list(enumerate(chosen)))
+        cli_ev = [x for x, _ in both]
+        hook_runs = [r_ for _, hr in both for r_ in hr]
         for i, (k, evs) in enumerate(zip(chosen, cli_ev)):
             hid = hbase + i
             idx[hid] = ("cli", k)
@@ -246,6 +258,9 @@ def run(chk, tier, seed):
         with open(trace, "w") as f:
             for e in events:
                 f.write(json.dumps(e) + "\n")
+        if hook_runs:
+            import readtrace
+            readtrace.validate_storage(chk, hook_runs, scratch)
         # 4. judge by TLC
         ok, tr = common.validate_trace("TraceStorage", "TraceStorage.cfg", trace, timeout=900)
         chk.add_tlc("TraceStorage", tr)
